@@ -14,6 +14,7 @@ From SV Require Import proofs.FreshProofs.
 From SV Require Import proofs.FreshSkipProofs.
 From SV Require Import model.FreshStatTypes gen.GenFreshStat model.FreshStat.
 From SV Require Import proofs.FreshStatProofs proofs.FreshStatLink proofs.FreshStatFinding.
+From SV Require Import proofs.FreshAmendedFinding.
 Import ListNotations.
 Open Scope N_scope.
 
@@ -227,6 +228,32 @@ Proof. exact inputs_final_full_refuted_by_aba. Qed.
 
 Theorem C03_full_refuted : ~ C03_full.
 Proof. exact inputs_final_full_refuted. Qed.
+
+(* NOT TRUE (finding C03-amended-record, open): the clause that would turn (D) of
+   C03_succeeded_inputs_final_partial into a statement about AMENDED inputs as well: if the step is
+   recorded SUCCEEDED, the hash recorded at the end for an input that was available when it was
+   amended is the hash recorded when the request was accepted.  For declared inputs this is
+   _flag_inputs_not_final (fix of D19); for amended inputs nothing compares the two records: the
+   file can be edited and re-recorded (pre-run check of another step, or withdrawn / declared /
+   confirmed anew) while the command, which has read it, still runs.  Witness: consumer 5 amends the
+   static file 2 (CONFIRMED, hash 4, accepted: nothing unavailable, nothing unfresh, carry_on), the
+   file is rewritten (9) and the new hash recorded; the step ends SUCCEEDED with record = disk = 9.
+   Replayed on the real Executor (p_c03.WITNESS_AMENDED_RECORD) and through the real serve()
+   (c03_repl.amended_record_system: stale output, never rebuilt). *)
+Definition C03_amended_record_full : Prop := amended_record_full.
+
+Theorem C03_amended_record_full_refuted_by_reconfirmation :
+  let w1 := fst (do_try amrec_w0 1) in
+  let w2 := run (EAmend [2] :: amrec_post) w1 in
+  let w3 := fst (step w2 (EEnd 4 true)) in
+  snd (do_try amrec_w0 1) = RTry true /\ forallb in_window (EAmend [2] :: amrec_post) = true /\
+  snd (step w1 (EAmend [2])) = RAmend false [] [] true /\
+  In 2 (considered w2) /\ f_state (files w1 2) = FS_CONFIRMED /\ f_hash (files w1 2) = 4 /\ disk w1 2 = 4 /\
+  c_state w3 = SS_SUCCEEDED /\ f_hash (files w3 2) = 9 /\ disk w2 2 = 9.
+Proof. exact amended_record_witness. Qed.
+
+Theorem C03_amended_record_full_refuted : ~ C03_amended_record_full.
+Proof. exact amended_record_full_refuted. Qed.
 
 (* Regression witness (finding D19, fixed by a02f82b).  The producer 8 of the declared input 1 is
    executed again while the command of c runs and rewrites the file (4 -> 7, nothing restored).
